@@ -5,7 +5,8 @@
 // any other permutation of the <=4 keys costs one deviation). For every input of a small
 // exhaustive input space, ALL executions with <= bound deviating loops are run and the
 // result (eligible and waiting as ordered lists per shard, leaving, still-remaining) must
-// be byte-identical to the default-order run. Input maps are also rebuilt in reverse
+// be byte-identical to the default-order run. Phase B (coord.go) does the same for the real
+// nodes coordinator's epoch-change path (EpochStartPrepare, with and without the rater). Input maps are also rebuilt in reverse
 // insertion order.
 package main
 
@@ -185,7 +186,7 @@ func main() {
 								for _, rnd := range []string{"r1", "r2", "r3"} {
 									for fl := 0; fl < 8; fl++ {
 										for _, rev := range []bool{false, true} {
-											if c.Quick() && (rnd == "r3" || (rev && fl != 6) || (nn == 2 && lv > 3)) {
+											if c.Quick() && (rnd != "r1" || (rev && fl != 6) || (nn == 2 && lv > 3)) {
 												continue
 											}
 											ins = append(ins, input{nb, el, wt, ns, ns, nn, lv, rnd, fl&1 != 0, fl&2 != 0, fl&4 != 0, rev})
@@ -247,6 +248,7 @@ func main() {
 				}
 			})
 		})
+		phaseCoordinator(c, bound)
 		st := map[string]int64{}
 		for k, v := range vmap.Sites {
 			st[k] = v
